@@ -102,7 +102,7 @@ func c11(r *engine.Report, p *engine.Program) {
 	}
 	ins := inserts[0].Instr.(*ssa.MapUpdate)
 	key := engine.Unwrap(ins.Key)
-	isKey := func(v ssa.Value) bool { return engine.Unwrap(v) == key }
+	isKey := sameVarAs(key)
 	// the key is the announced ForwardingNode
 	kf, _ := engine.FieldOfLoad(key)
 	r.Check("R2-admission", "runProtocol: table key is the announced ForwardingNode", ins.Pos(), kf == fwdNode,
@@ -254,19 +254,7 @@ func c11(r *engine.Report, p *engine.Program) {
 			"the ID removed is this session's remoteNodeID", "removeConnection is called with a value other than this session's remote node ID")
 	}
 	// (b) the announced ID is not removed before this session inserted it
-	if def, ok := key.(ssa.Instruction); ok {
-		early := engine.Reach(rp, def, nil, isIns, func(in ssa.Instruction) bool {
-			for _, rm := range rems {
-				if rm.call == in && engine.Unwrap(rm.id) == key {
-					return true
-				}
-			}
-			return false
-		})
-		r.Check("R4-removal", "runProtocol: no removal of the announced ID before this session's insertion", ins.Pos(), early == nil,
-			"between reading the announced ID and inserting it no path removes that ID from the table (a rejected session cannot evict an established peer with the same ID)",
-			"a path from the announced ID to "+descInstr(p, early)+" removes that ID before this session inserted it: rejecting a session evicts the healthy connection of the peer it impersonates")
-	}
+	noEarlyRemoval(r, p, "R4-removal", rp, ins, key, rems)
 	// removeConnection itself: no-op for "", deletes under the write lock
 	guardedBy(r, p, "R4-guarded-by", conns, connLock, nil)
 
@@ -334,6 +322,27 @@ func c11(r *engine.Report, p *engine.Program) {
 			return false, false
 		})
 		mustDisconnect("cost disagreement", costNE)
+		// the peer's own update is handed on only if its cost for us equals ours — every time
+		nodeF := p.Field("netceptor", "routingUpdate", "NodeID")
+		ownEq, _ := valEqEdges(rp, func(v ssa.Value) bool { f, _ := engine.FieldOfLoad(v); return f == nodeF }, isRemoteID)
+		costEq, _ := engine.CondEdges(rp, func(c ssa.Value) (bool, bool) {
+			b, ok := c.(*ssa.BinOp)
+			if !ok || (b.Op != token.EQL && b.Op != token.NEQ) {
+				return false, false
+			}
+			if isRemoteCost(b.X) || isRemoteCost(b.Y) {
+				return true, b.Op == token.EQL
+			}
+			return false, false
+		})
+		okOwn := len(ownEq) > 0 && len(costEq) > 0
+		for _, e := range ownEq {
+			if reachFromEdge(rp, e, engine.EdgeSet{}.Add(costEq...), func(in ssa.Instruction) bool { return in == selectLoop }, isHC) != nil {
+				okOwn = false
+			}
+		}
+		r.Check("R5-established", "runProtocol: the peer's own update is processed only when its cost for us equals ours (every update)", hc.Pos(), okOwn,
+			"from the ri.NodeID == remoteNodeID edge, handleRoutingUpdate is unreachable once the remoteCost == connectionCost edges are removed", "an update of the direct peer can be processed although it lists a different cost for this link (e.g. the agreement is checked only once): the two ends keep asymmetric costs and a live route")
 		// reject message
 		cReject := p.Const("netceptor", "MsgTypeReject")
 		rejE, _ := engine.IntCmpEdges(rp, func(v ssa.Value) bool { return v.Type().String() == "byte" || v.Type().String() == "uint8" }, 0, token.EQL, constIntVal(cReject))
@@ -395,7 +404,7 @@ func ordinalOfCall(ci ssa.CallInstruction) int {
 // removalArgIsSessionID: v is the announced-ID value or a phi merging it with the initial "".
 func removalArgIsSessionID(v ssa.Value, key ssa.Value) bool {
 	v = engine.Unwrap(v)
-	if v == key {
+	if v == key || sameVarAs(key)(v) {
 		return true
 	}
 	if ph, ok := v.(*ssa.Phi); ok {
@@ -429,3 +438,91 @@ func removalArgIsSessionID(v ssa.Value, key ssa.Value) bool {
 }
 
 var _ = types.Typ
+
+// noEarlyRemoval: between reading the announced ID and inserting it, no path (deferred closures
+// included) removes that ID from the connection table.
+func noEarlyRemoval(r *engine.Report, p *engine.Program, rule string, rp *ssa.Function, ins ssa.Instruction, key ssa.Value, rems []removal) {
+	def, ok := key.(ssa.Instruction)
+	if !ok {
+		return
+	}
+	// when the session ID variable lives in a cell (captured by a closure) the definition is the
+	// store of the announced ForwardingNode into that cell, and "the same ID" is any load of the cell
+	var cell ssa.Value
+	if u, isU := key.(*ssa.UnOp); isU {
+		if al, isAl := u.X.(*ssa.Alloc); isAl {
+			cell = al
+			if refs := al.Referrers(); refs != nil {
+				for _, rr := range *refs {
+					if st, isS := rr.(*ssa.Store); isS && st.Addr == ssa.Value(al) {
+						if f, _ := engine.FieldOfLoad(st.Val); f != nil && f.Name() == "ForwardingNode" {
+							def = st
+						}
+					}
+				}
+			}
+		}
+	}
+	sameID := func(v ssa.Value) bool {
+		v = engine.Unwrap(v)
+		if v == key {
+			return true
+		}
+		if u, isU := v.(*ssa.UnOp); isU && cell != nil && u.X == cell {
+			return true
+		}
+		return false
+	}
+	isIns := func(in ssa.Instruction) bool { return in == ins }
+	early := engine.Reach(rp, def, nil, isIns, func(in ssa.Instruction) bool {
+		for _, rm := range rems {
+			if rm.call == in && sameID(rm.id) {
+				return true
+			}
+		}
+		return false
+	})
+	// a deferred closure that removes the session's ID runs on every return, also on the
+	// pre-insertion rejection returns
+	wr := removalWrappers(p)
+	deferredRemoval := ""
+	for _, ci := range engine.CallsIn(rp) {
+		d, isD := ci.(*ssa.Defer)
+		if !isD {
+			continue
+		}
+		if mc, isMC := d.Common().Value.(*ssa.MakeClosure); isMC {
+			cl := mc.Fn.(*ssa.Function)
+			if len(removalsIn(p, cl, wr)) > 0 {
+				// is a return reachable from the announced-ID definition without passing the insertion?
+				if engine.Reach(rp, def, nil, isIns, func(in ssa.Instruction) bool { _, isR := in.(*ssa.Return); return isR }) != nil {
+					deferredRemoval = engine.FuncName(cl)
+				}
+			}
+		}
+	}
+	r.Check(rule, "runProtocol: no removal of the announced ID before this session's insertion", ins.Pos(), early == nil && deferredRemoval == "",
+		"between reading the announced ID and inserting it no path — deferred exit handlers included — removes that ID from the table (a rejected session cannot evict an established peer with the same ID)",
+		"a path from the announced ID to "+descInstr(p, early)+deferredRemoval+" removes that ID before this session inserted it: rejecting a session evicts the healthy connection of the peer it impersonates")
+}
+
+// sameVarAs: predicate "v denotes the same variable as key": the same SSA value, or — when the
+// variable lives in a memory cell because a closure captures it — another load of that cell.
+func sameVarAs(key ssa.Value) func(ssa.Value) bool {
+	var cell ssa.Value
+	if u, ok := key.(*ssa.UnOp); ok {
+		if al, ok := u.X.(*ssa.Alloc); ok {
+			cell = al
+		}
+	}
+	return func(v ssa.Value) bool {
+		v = engine.Unwrap(v)
+		if v == key {
+			return true
+		}
+		if u, ok := v.(*ssa.UnOp); ok && cell != nil && u.X == cell {
+			return true
+		}
+		return false
+	}
+}
